@@ -8,7 +8,7 @@
 // option. This file may not be copied, modified, or distributed
 // except according to those terms.
 
-use std::{cell::RefCell, collections::hash_map, env, fs, hash::Hasher, time::SystemTime};
+use std::{cell::RefCell, env, fs, time::SystemTime};
 
 use super::tz_info::TimeZone;
 use super::{FixedOffset, NaiveDateTime};
@@ -36,18 +36,15 @@ thread_local! {
 
 enum Source {
     LocalTime { mtime: SystemTime },
-    Environment { hash: u64 },
+    // the text of `TZ` itself: a hash of it can collide, and a change between two
+    // colliding values would never be noticed
+    Environment { tz: String },
 }
 
 impl Source {
     fn new(env_tz: Option<&str>) -> Source {
         match env_tz {
-            Some(tz) => {
-                let mut hasher = hash_map::DefaultHasher::new();
-                hasher.write(tz.as_bytes());
-                let hash = hasher.finish();
-                Source::Environment { hash }
-            }
+            Some(tz) => Source::Environment { tz: tz.to_owned() },
             None => match fs::symlink_metadata("/etc/localtime") {
                 Ok(data) => Source::LocalTime {
                     // we have to pick a sensible default when the mtime fails
@@ -129,9 +126,9 @@ impl Cache {
                     {
                         true
                     }
-                    // stay as env, but hash of variable has changed
-                    (Source::Environment { hash: old_hash }, Source::Environment { hash })
-                        if old_hash != hash =>
+                    // stay as env, but the variable has changed
+                    (Source::Environment { tz: old_tz }, Source::Environment { tz })
+                        if old_tz != tz =>
                     {
                         true
                     }
